@@ -70,6 +70,7 @@ fn base_cfg(prop: &str, name: &str, price: u64, templates: Vec<(String, Ord_)>) 
         variants: vec![],
         known: KnownFindings::load(),
         max_orders: 3,
+        clock_step_ms: None,
     }
 }
 
@@ -273,7 +274,28 @@ fn sc_edge(prop: &str) -> LevelCfg {
     c
 }
 
+/// the plans of a property, plus one of them again under a virtual clock that jumps 1.5 s at every reading
+/// (time-driven behaviour - periodic housekeeping, ageing - becomes part of every explored history)
 pub fn plans(prop: &str, tier: &str) -> Vec<Plan> {
+    let mut v = plans_base(prop, tier);
+    let pick = ["SC-types", "SC-order", "SC-zero"]
+        .iter()
+        .find_map(|n| v.iter().find(|p| p.cfg.name == *n))
+        .map(|p| Plan { cfg: p.cfg.clone(), depth: p.depth });
+    if let Some(mut p) = pick {
+        p.cfg.name = format!("{} under a clock advancing 1.5 s per reading", p.cfg.name);
+        p.cfg.clock_step_ms = Some(1500);
+        if tier == "quick" {
+            p.depth = p.depth.min(4);
+        } else {
+            p.depth = p.depth.saturating_sub(1).max(4);
+        }
+        v.push(p);
+    }
+    v
+}
+
+fn plans_base(prop: &str, tier: &str) -> Vec<Plan> {
     let quick = tier == "quick";
     let d = |q: usize, t: usize| if quick { q } else { t };
     match prop {
